@@ -7,8 +7,15 @@ Space (enumerated completely):
      dictionaries with a hole;
   L  add_layers with every layer count 1..120 and the counts cap-1, cap, cap+1 of every option combination (crossing the
      surface-layer name 'at' / 'atm');
-  G  rectangular(): every size nx, ny in 1..6 (quick 1..4), nz in 1..4 (quick 1..3) plus four sizes on the 3-letter
-     capacity edges, crossed with convention x atmosphere type x justify x 7 (chars, case) pairs x blanks allowed or not,
+  N' the three *_name_from_number generators for 0..1100 (thorough 0..5000) on an object that reached the same options by
+     another route: names generated under each other convention and the convention then assigned, atmosphere type
+     assigned, other justification / blanks option / alphabet used first; and (GR) on a geometry built by rectangular()
+     under convention A whose convention is then assigned to B (all 12 ordered pairs); results must be those of a fresh
+     object (order independence), and satisfy the same clauses;
+  G  rectangular(): every size nx, ny in 1..6 (quick 1..4), nz in 1..4 (quick {1,3}) plus four sizes on the 3-letter
+     capacity edges, crossed with convention x atmosphere type x justify x 13 (chars, case) pairs (among them alphabets
+     holding a letter in both cases, with case None / 'u' / 'l') x blanks allowed or not; each geometry is also written to
+     a file and re-read with mulgrid(filename), twice,
      each also re-indexed in 'dmplex' block order;
   X  capacity-edge geometries: 98/99/100 nodes (convention 1), 998/999/1000 nodes (convention 2), 98/99/100 layers,
      letter-layer counts cap-1/cap/cap+1, 1296 upper-case columns (a column called 'ATM' next to the atmosphere block
@@ -33,9 +40,10 @@ EXHAUSTIVE = True
 RULE = ('name generators: every integer 0..20000 x 4 conventions x 2 justifications x 6 alphabets x blanks allowed or not '
         '(a case = one call; distinct = (generator, options, integer)); add_layers: every count 1..120 and cap-1/cap/cap+1 x '
         'the same options; rectangular: every (nx, ny, nz) in the size box x 4 conventions x 3 atmosphere types x 2 '
-        'justifications x 7 (chars, case) pairs x blanks allowed or not, plus the listed capacity-edge geometries (a case = one '
+        'justifications x 13 (chars, case) pairs x blanks allowed or not, each also re-read from its own file, plus the listed capacity-edge geometries (a case = one '
         'geometry, all of its names and blocks checked; distinct = (options, size)); fix/unfix: every 5-character string over '
-        'the stated alphabet. Non-trivial = the call is made with an integer/size for which the statement fixes the '
+        'the stated alphabet; generator calls 0..1100 (thorough 0..5000) repeated on objects that reached the options by '
+        'another route (7 primers per option combination, 12 convention pairs after rectangular()). Non-trivial = the call is made with an integer/size for which the statement fixes the '
         'outcome (a name, or the naming error) - all cases are.')
 ASSUMPTIONS = ['alphabets handed to the name generators directly have no repeated letter (rectangular / add_layers remove '
                'repeats themselves, which is exercised with chars = "abcab")',
@@ -52,7 +60,7 @@ ASSUMPTIONS = ['alphabets handed to the name generators directly have no repeate
                'properties',
                'valid block names = the documented TOUGH2 form (3 free characters, digit-or-blank, digit); for other '
                '5-character strings only idempotence, one-step stabilisation and absence of exceptions are asserted']
-BOUNDS = {'quick': {'integers': '0..20000', 'layer_counts': '1..120 + capacity edges <= 2000', 'sizes': 'nx,ny 1..4 x nz 1..3 + 4 edge sizes',
+BOUNDS = {'quick': {'integers': '0..20000', 'layer_counts': '1..120 + capacity edges <= 2000', 'sizes': 'nx,ny 1..4 x nz in {1,3} + 4 edge sizes',
                     'edge_geometries': 'up to 1369 nodes', 'fix_unfix_alphabet': '6 letters (7776 strings)'},
           'thorough': {'integers': '0..20000', 'layer_counts': '1..120 + all capacity edges', 'sizes': 'nx,ny 1..6 x nz 1..4 + 4 edge sizes',
                        'edge_geometries': 'up to 18279 nodes / 18278 layers',
@@ -113,6 +121,10 @@ def units(tier):
                         us.append(('G', conv, atm, j, cs, sp))
     for e in edge_cases(tier):
         us.append(('X',) + e)
+    for a in range(4):
+        for b in range(4):
+            if a != b:
+                us.append(('GR', a, b))
     us.append(('F', FIX_ALPHA, ''))
     if tier == 'thorough':
         for c in FIX_ALPHA_BIG:
@@ -143,6 +155,11 @@ def edge_cases(tier):
             # upper-case letter columns: column 1209 is called 'ATM'
             for conv in (0, 3):
                 out.append((conv, atm, j, 'lower-u', True, 36, 36, 2))
+            # alphabets holding a letter in both cases, with the case option: more nodes than distinct letters
+            for conv in (0, 3):
+                for cs in ('mixed12-u', 'mixed12-l', 'letters52-u', 'letters52-l', 'letters52', 'mixed12'):
+                    for sp in (True, False):
+                        out.append((conv, atm, j, cs, sp, 8, 7, 3))
             if tier == 'thorough':
                 for conv in (0, 3):
                     for nx, ny in ((6, 2610), (36, 493), (26, 676)):
@@ -162,11 +179,14 @@ def relation(n, cap):
     return 'below-capacity' if n < cap else ('at-capacity' if n == cap else 'above-capacity')
 
 
-def check_generator(fname, conv, j, cs, sp, nmax=NMAX):
-    """All integers 0..nmax through one generator.  -> (violations [(sig, what, n)], evaluations, outcome counts)."""
+def check_generator(fname, conv, j, cs, sp, nmax=NMAX, geo=None, after=None, collect=None, fresh=None):
+    """All integers 0..nmax through one generator.  -> (violations [(sig, what, n)], evaluations, outcome counts).
+    geo/after: an object that reached this convention by another route (signatures get '|after=...');
+    collect: list receiving the result per integer; fresh: the results of a fresh object to compare with."""
     m = lib()
     chars = N.NAME_CHARSETS[cs]
-    geo = m.mulgrid(convention=conv)
+    if geo is None:
+        geo = m.mulgrid(convention=conv)
     jf = justfn(j)
     viol = []
     seen = {}
@@ -178,14 +198,25 @@ def check_generator(fname, conv, j, cs, sp, nmax=NMAX):
         fn = geo.column_name_from_number if fname == 'column_name_from_number' else geo.node_name_from_number
         cap, L = N.column_capacity(conv, chars, sp), N.COLNAME_LENGTH[conv]
 
+    route = '' if after is None else '|after=%s' % after
+    rdesc = '' if after is None else ' on an object that had %s' % after
+
     def add(clause, n, what):
-        viol.append(('C17|%s|%s|%s,%s' % (fname, clause, sigopts, relation(n, cap)), what, n))
+        viol.append(('C17|%s|%s|%s,%s%s' % (fname, clause, sigopts, relation(n, cap), route), what + rdesc, n))
+
+    def note(n, res):
+        if collect is not None:
+            collect.append(res)
+        if fresh is not None and n < len(fresh) and fresh[n] != res:
+            add('differs-from-fresh-object', n, '%s(%d) gives %r, a fresh object of convention %d gives %r (%s, justify %s, chars %s)'
+                % (fname, n, res, conv, fresh[n], opts, j, cs))
 
     for n in range(0, nmax + 1):
         try:
             name = fn(n, jf, chars, sp)
         except m.NamingConventionError:
             oc['naming-error'] += 1
+            note(n, 'NamingConventionError')
             if n <= cap:
                 add('premature-naming-error', n, '%s(%d) raised NamingConventionError, capacity is %d (%s, justify %s, chars %s)'
                     % (fname, n, cap, opts, j, cs))
@@ -194,8 +225,10 @@ def check_generator(fname, conv, j, cs, sp, nmax=NMAX):
             raise
         except Exception as e:
             add('raises-%s' % type(e).__name__, n, '%s(%d) raised %r (%s, justify %s, chars %s)' % (fname, n, e, opts, j, cs))
+            note(n, 'raised-%s' % type(e).__name__)
             continue
         oc['name'] += 1
+        note(n, name)
         if not isinstance(name, str) or len(name) != L:
             add('name-length', n, '%s(%d) returned %r, not a %d-character name (%s, justify %s, chars %s)'
                 % (fname, n, name, L, opts, j, cs))
@@ -208,6 +241,74 @@ def check_generator(fname, conv, j, cs, sp, nmax=NMAX):
         else:
             seen[name] = n
     return viol, nmax + 1, oc
+
+
+GENERATORS = ('column_name_from_number', 'node_name_from_number', 'layer_name_from_number')
+ROUTE_RANGE = {'quick': 1100, 'thorough': 5000}
+
+
+def primers(conv):
+    """Other routes to the same (convention, justify, chars, spaces): what the object did before."""
+    out = [('convention', a) for a in range(4) if a != conv]
+    out += [('atmosphere_type', 1), ('justify',), ('spaces',), ('chars',)]
+    return out
+
+
+def primer_name(primer):
+    if primer[0] == 'convention':
+        return 'generated-names-under-convention-%d-then-convention-assigned' % primer[1]
+    if primer[0] == 'atmosphere_type':
+        return 'generated-names-then-atmosphere_type-assigned'
+    return 'generated-names-with-other-%s' % primer[0]
+
+
+def prime(m, conv, j, cs, sp, primer, nmax):
+    """-> a mulgrid object that has generated names 0..nmax under the primer's options and now has convention conv;
+    None when the library refuses the assignment (not a documented operation, so not a violation)."""
+    pconv, pj, pcs, psp = conv, j, cs, sp
+    if primer[0] == 'convention':
+        pconv = primer[1]
+    elif primer[0] == 'justify':
+        pj = 'l' if j == 'r' else 'r'
+    elif primer[0] == 'spaces':
+        psp = not sp
+    elif primer[0] == 'chars':
+        pcs = N.OTHER_CHARSET[cs]
+    geo = m.mulgrid(convention=pconv, atmos_type=0)
+    jf, chars = justfn(pj), N.NAME_CHARSETS[pcs]
+    for fn in (geo.column_name_from_number, geo.node_name_from_number, geo.layer_name_from_number):
+        for n in range(0, nmax + 1):
+            try:
+                fn(n, jf, chars, psp)
+            except core.CaseTimeout:
+                raise
+            except Exception:
+                pass
+    try:
+        with quiet():
+            if primer[0] == 'convention':
+                geo.convention = conv
+            elif primer[0] == 'atmosphere_type':
+                geo.atmosphere_type = primer[1]
+    except core.CaseTimeout:
+        raise
+    except Exception:
+        return None
+    return geo
+
+
+def check_generator_route(conv, j, cs, sp, primer, nmax, fresh):
+    m = lib()
+    geo = prime(m, conv, j, cs, sp, primer, nmax)
+    if geo is None:
+        return [], 0
+    out, total = [], 0
+    for fname in GENERATORS:
+        viol, n, oc = check_generator(fname, conv, j, cs, sp, nmax=nmax, geo=geo, after=primer_name(primer),
+                                      fresh=fresh.get(fname) if fresh else None)
+        total += n
+        out += [(s, w, num, fname) for s, w, num in viol]
+    return out, total
 
 
 def check_int_to_chars(j, cs, sp, length, nmax=NMAX):
@@ -334,8 +435,10 @@ def check_new_key(kind, conv, j, cs, sp, nmax=NMAX):
 def run_N(unit, tier, rec):
     _, conv, j, cs, sp = unit
     total = 0
-    for fname in ('column_name_from_number', 'node_name_from_number', 'layer_name_from_number'):
-        viol, n, oc = check_generator(fname, conv, j, cs, sp)
+    fresh = {}
+    for fname in GENERATORS:
+        fresh[fname] = []
+        viol, n, oc = check_generator(fname, conv, j, cs, sp, collect=fresh[fname])
         total += n
         for k, v in oc.items():
             rec.outcomes[k] += v
@@ -343,6 +446,16 @@ def run_N(unit, tier, rec):
             rec.violation(sig, what, {'kind': 'generator', 'fn': fname, 'conv': conv, 'justify': j, 'chars': cs,
                                       'spaces': sp, 'n': num})
     rec.count('generator_calls', total)
+    # the same generators on an object that reached these options by another route
+    tr = 0
+    for primer in primers(conv):
+        viol, n = check_generator_route(conv, j, cs, sp, primer, ROUTE_RANGE[tier], fresh)
+        tr += n
+        for sig, what, num, fname in viol:
+            rec.violation(sig, what, {'kind': 'generator-route', 'fn': fname, 'conv': conv, 'justify': j, 'chars': cs,
+                                      'spaces': sp, 'n': num, 'primer': list(primer), 'range': ROUTE_RANGE[tier]})
+    rec.count('generator_calls_after_primer', tr)
+    total += tr
     t2 = 0
     if conv == 0:      # int_to_chars does not depend on the convention
         for length in ((0, 2, 3) if sp else (2, 3)):
@@ -680,8 +793,8 @@ def block_clauses(m, geo, conv, atm, nz, full):
 
 
 def sizes(tier):
-    mx, mz = (6, 4) if tier == 'thorough' else (4, 3)
-    out = [(nx, ny, nz) for nx in range(1, mx + 1) for ny in range(1, mx + 1) for nz in range(1, mz + 1)]
+    mx, zs = (6, (1, 2, 3, 4)) if tier == 'thorough' else (4, (1, 3))
+    out = [(nx, ny, nz) for nx in range(1, mx + 1) for ny in range(1, mx + 1) for nz in zs]
     return out + EXTRA_SIZES
 
 
@@ -706,6 +819,48 @@ def run_G(unit, tier, rec):
                         'block_names': list(geo.block_name_list)})
         except Exception:
             pass
+
+
+def run_GR(unit, tier, rec):
+    """A geometry built by rectangular() under convention A (its object has generated names), then convention B
+    assigned; the generators must then behave as those of a fresh object of convention B.  An assignment the library
+    refuses is not a violation (re-labelling a populated geometry is not a documented operation)."""
+    _, ca, cb = unit
+    m = lib()
+    nmax = ROUTE_RANGE[tier]
+    n_eval = refused = 0
+    for j in 'rl':
+        for sp in (True, False):
+            for cs in ('lower', 'abc'):
+                chars = N.NAME_CHARSETS[cs]
+                fresh = {}
+                for fname in GENERATORS:
+                    fresh[fname] = []
+                    check_generator(fname, cb, j, cs, sp, nmax=nmax, collect=fresh[fname])
+                for atm in (0, 2):
+                    try:
+                        with quiet():
+                            geo = m.mulgrid().rectangular([10.] * 3, [10.] * 2, [5.] * 2, convention=ca, atmos_type=atm,
+                                                          justify=j, chars=chars, spaces=sp)
+                            geo.convention = cb
+                    except core.CaseTimeout:
+                        raise
+                    except Exception:
+                        refused += 1
+                        continue
+                    after = 'built-by-rectangular-under-convention-%d-then-convention-assigned' % ca
+                    for fname in GENERATORS:
+                        viol, n, oc = check_generator(fname, cb, j, cs, sp, nmax=nmax, geo=geo, after=after, fresh=fresh[fname])
+                        n_eval += n
+                        for sig, what, num in viol:
+                            rec.violation(sig, what, {'kind': 'geometry-route', 'from': ca, 'to': cb, 'justify': j,
+                                                      'chars': cs, 'spaces': sp, 'atmos': atm, 'n': num, 'fn': fname,
+                                                      'range': nmax})
+                    rec.case(('GR', ca, cb, j, sp, cs, atm), outcome='convention-assigned')
+    rec.bulk(n_eval, [])
+    rec.count('generator_cases_distinct_by_construction', n_eval)
+    rec.count('generator_calls_after_rectangular_and_assignment', n_eval)
+    rec.count('convention_assignments_refused', refused)
 
 
 def run_X(unit, tier, rec):
@@ -831,6 +986,8 @@ def _run_unit(unit, tier, rec):
         run_G(unit, tier, rec)
     elif k == 'X':
         run_X(unit, tier, rec)
+    elif k == 'GR':
+        run_GR(unit, tier, rec)
     elif k == 'F':
         run_F(unit, tier, rec)
     else:
@@ -850,6 +1007,27 @@ def replay(case):
     k = case['kind']
     if k == 'generator':
         viol, n, oc = check_generator(case['fn'], case['conv'], case['justify'], case['chars'], case['spaces'], nmax=case['n'])
+        return [(s, w) for s, w, num in viol if num == case['n']]
+    if k == 'generator-route':
+        fresh = {}
+        for fname in GENERATORS:
+            fresh[fname] = []
+            check_generator(fname, case['conv'], case['justify'], case['chars'], case['spaces'], nmax=case['range'],
+                            collect=fresh[fname])
+        viol, n = check_generator_route(case['conv'], case['justify'], case['chars'], case['spaces'], tuple(case['primer']),
+                                        case['range'], fresh)
+        return [(s, w) for s, w, num, fname in viol if num == case['n'] and fname == case['fn']]
+    if k == 'geometry-route':
+        m = lib()
+        fresh = []
+        check_generator(case['fn'], case['to'], case['justify'], case['chars'], case['spaces'], nmax=case['range'], collect=fresh)
+        with quiet():
+            geo = m.mulgrid().rectangular([10.] * 3, [10.] * 2, [5.] * 2, convention=case['from'], atmos_type=case['atmos'],
+                                          justify=case['justify'], chars=N.NAME_CHARSETS[case['chars']], spaces=case['spaces'])
+            geo.convention = case['to']
+        viol, n, oc = check_generator(case['fn'], case['to'], case['justify'], case['chars'], case['spaces'], nmax=case['range'],
+                                      geo=geo, fresh=fresh,
+                                      after='built-by-rectangular-under-convention-%d-then-convention-assigned' % case['from'])
         return [(s, w) for s, w, num in viol if num == case['n']]
     if k == 'int_to_chars':
         viol, n = check_int_to_chars(case['justify'], case['chars'], case['spaces'], case['length'], nmax=case['n'])
